@@ -102,47 +102,47 @@ func mDecodeChecks(k int, b []byte) {
 
 // H_M1_scalars2 ... : Unmarshal vs validate vs generic scan vs checkInitialized on every input.
 //
-//verif:props=C06 bounds=VScalars2;all-byte-strings<=3(quick)/5(thorough) maxsteps=6000000
+//verif:props=C06 bounds=VScalars2;all-byte-strings<=3(quick)/4(thorough) maxsteps=6000000
 func H_M1_scalars2() {
 	N := 3
 	if nd.Thorough() {
-		N = 5
+		N = 4
 	}
 	mDecodeChecks(0, nd.Bytes(N))
 }
 
-//verif:props=C06,C13 bounds=VScalars3;all-byte-strings<=3(quick)/5(thorough) maxsteps=6000000
+//verif:props=C06,C13 bounds=VScalars3;all-byte-strings<=3(quick)/4(thorough) maxsteps=6000000
 func H_M1_scalars3() {
 	N := 3
 	if nd.Thorough() {
-		N = 5
+		N = 4
 	}
 	mDecodeChecks(1, nd.Bytes(N))
 }
 
-//verif:props=C06,C13 bounds=VRepeats;all-byte-strings<=3(quick)/5(thorough) maxsteps=6000000
+//verif:props=C06,C13 bounds=VRepeats;all-byte-strings<=3(quick)/4(thorough) maxsteps=6000000
 func H_M1_repeats() {
 	N := 3
 	if nd.Thorough() {
-		N = 5
+		N = 4
 	}
 	mDecodeChecks(2, nd.Bytes(N))
 }
 
-//verif:props=C06 bounds=VNests;all-byte-strings<=3(quick)/5(thorough) maxsteps=6000000
+//verif:props=C06 bounds=VNests;all-byte-strings<=3(quick)/4(thorough) maxsteps=6000000
 func H_M1_nests() {
 	N := 3
 	if nd.Thorough() {
-		N = 5
+		N = 4
 	}
 	mDecodeChecks(3, nd.Bytes(N))
 }
 
-//verif:props=C06,C10 bounds=VReq;all-byte-strings<=4(quick)/6(thorough) maxsteps=6000000
+//verif:props=C06,C10 bounds=VReq;all-byte-strings<=4(quick)/5(thorough) maxsteps=6000000
 func H_M1_req() {
 	N := 4
 	if nd.Thorough() {
-		N = 6
+		N = 5
 	}
 	mDecodeChecks(4, nd.Bytes(N))
 }
@@ -156,11 +156,11 @@ func H_M1_reqouter() {
 	mDecodeChecks(5, nd.Bytes(N))
 }
 
-//verif:props=C06,C09 bounds=VEmpty;all-byte-strings<=3(quick)/5(thorough) maxsteps=6000000
+//verif:props=C06,C09 bounds=VEmpty;all-byte-strings<=3(quick)/4(thorough) maxsteps=6000000
 func H_M1_empty() {
 	N := 3
 	if nd.Thorough() {
-		N = 5
+		N = 4
 	}
 	mDecodeChecks(6, nd.Bytes(N))
 }
@@ -233,11 +233,11 @@ func H_M1_field_repeats() {
 // is passed straight through) the decoder and the validator agree on which nestings exceed it:
 // valid => decodes, invalid => fails, on messages, groups and repeated variants nested in VNests.
 //
-//verif:props=C06 bounds=VNests;all-byte-strings<=3(quick)/5(thorough);recursion-limit-0..2(quick)/0..3(thorough) maxsteps=6000000
+//verif:props=C06 bounds=VNests;all-byte-strings<=3(quick)/4(thorough);recursion-limit-0..2(quick)/0..3(thorough) maxsteps=6000000
 func H_M1_depth() {
 	N := 3
 	if nd.Thorough() {
-		N = 5
+		N = 4
 	}
 	b := nd.Bytes(N)
 	depth := nd.Int(0, 2)
